@@ -321,6 +321,10 @@ pub fn sources(full: bool) -> &'static Vec<(String, Option<u16>, u64)> {
                     v.push((e.name.clone(), None, tag));
                 }
                 "block" => {
+                    // blocks pallas does not decode (conway8.block needs the `relaxed` feature) are no source
+                    if !pvkit::panics::guarded(|| pallas_traverse::MultiEraBlock::decode(&e.bytes).is_ok()).unwrap_or(false) {
+                        continue;
+                    }
                     let Ok(t) = cborx::read(&e.bytes) else { continue };
                     let Ok(bv) = layout::block_view(&t) else { continue };
                     for i in 0..bv.txs.len() {
@@ -394,7 +398,7 @@ pub fn run(s: &Session) {
         "era:byron", "era:shelley", "era:allegra", "era:mary", "era:alonzo", "era:babbage", "era:conway"] {
         s.health(s.class_count(c) > 0, &format!("class {c} never generated"));
     }
-    s.health(s.class_count("rejected:plain") <= 1, "corpus transactions rebuilt without changes are rejected by pallas");
+    s.health(s.class_count("rejected:plain") == 0, "corpus transactions rebuilt without changes are rejected by pallas");
     let rej = s.class_count("rejected:variant");
     s.note("variants_rejected_by_decoder", serde_json::json!(rej));
 }
